@@ -214,7 +214,11 @@ def generate(rng, tier):
                 "max_restarts": 10000, "max_conflicts": 20000, "gc": rng.choice([2, 4, 8, 16]),
                 "decide": {"policy": rng.choice(["random", "vsids"]), "seed": rng.getrandbits(30), "p": 1.0}}
     clauses = gen_formula(rng, big)
-    if rng.random() < 0.08:
+    if rng.random() < 0.01:
+        clauses = []  # the empty formula
+        # (a formula made of empty clauses only - no variable at all - is answered with the empty model by design: the
+        #  repository's own test_clause_with_no_variables_detected pins that, so such formulas are not generated)
+    if clauses and rng.random() < 0.08:
         # legal but unusual clause shapes: a literal listed twice, or a tautology (x or not x)
         for _ in range(rng.choice([1, 1, 2])):
             c = rng.choice(clauses)
@@ -225,7 +229,7 @@ def generate(rng, tier):
         # the same clause listed twice (formulas assembled from parts often repeat clauses)
         for _ in range(rng.choice([1, 1, 2])):
             clauses.insert(rng.randrange(len(clauses) + 1), list(rng.choice(clauses)))
-    if rng.random() < 0.03:
+    if clauses and rng.random() < 0.03:
         clauses.append([])  # empty clause
     nv = max((abs(l) for c in clauses for l in c), default=1)
     assumptions = []
